@@ -65,7 +65,43 @@ def invariant_equivs(p):
             ex.append((F(SOMEV(t), 'denom'), F(t[1], 'quote', 'denom')))
     return ex
 
+def positive_evidence(p, a):
+    """why amount term a is > 0 on path p: a guard fact, a validated request size, or a named invariant; None if nothing"""
+    from money import Dom
+    dom = Dom(p, use=('path',))
+    for f, _, _ in p.facts:
+        if f[0] == 'val' and f[1][0] == 'lt':
+            if f[2] is True and f[1][1] == I(0) and dom.eq(f[1][2], a): return 'guard: 0 < amount'
+            if f[2] is False and f[1][2] == I(1) and dom.eq(f[1][1], a): return 'validated: amount >= 1'
+        if f[0] == 'nval' and 0 in f[2] and dom.eq(f[1], a): return 'guard: amount != 0'
+        if f[0] == 'val' and f[2] is False and f[1][0] == 'eq' and I(0) in f[1][1:]:
+            other = f[1][2] if f[1][1] == I(0) else f[1][1]
+            if dom.eq(other, a): return 'guard: amount != 0'
+    pa = dom.poly(a)
+    def stored_field(t, ns, path):
+        x = t
+        for name in reversed(path):
+            if x[0] != 'f' or x[2] != name: return False
+            x = x[1]
+        return x[0] == 'stored' and x[1] == ns
+    if stored_field(a, 'ask', ['size']): return 'I1: an ask on the book has size > 0'
+    if a[0] == 'f' and a[2] == 'amount' and a[1][0] == 'v' and a[1][3] == 'converted_base': return 'I2 + I1: approver amount == size > 0'
+    # price x positive size
+    def is_size(t):
+        if t[0] == 'msg' and t[2] in ('size',): return p.holds(LT(t, I(1)), False) is not None
+        if t[0] == 'v' and t[2] == 'Some' and t[1][0] == 'msg': return p.holds(LT(t, I(1)), False) is not None
+        if t[0] == 'sub' and stored_field(t[1], 'bid', ['base', 'amount']) and stored_field(t[2], 'bid', ['accumulated_base']): return True   # I3
+        return False
+    if a[0] == 'mul' and a[1][0] == 'dec' and is_size(a[2]): return 'I6/L-pos: positive price x positive size, whole by the path guard'
+    if is_size(a): return 'I3 / validated size'
+    if a[0] == 'sub' and a[1][0] == 'mul' and a[2][0] == 'round': return 'undecided:net-proceeds'
+    if a[0] == 'add' and any(positive_evidence(p, x) for x in a[1:]): return 'sum with a positive part'
+    return None
+
+undecided = collections.Counter()
+
 def run(eng, tier):
+    undecided.clear()
     contexts = set(); nmsg = 0; kinds = collections.Counter()
     variants_with_msgs = set()
     for root in eng.s['roots']:
@@ -111,6 +147,13 @@ def run(eng, tier):
                            '%s: bank send of denomination %s emitted on a path that does not establish that *this* denomination is not a restricted marker (known unrestricted on this path: %s)' % (
                                p.variant, K(D), [K(d) for d in cands]), where=call_site, detail=p.describe(),
                            sample={'rule': 'mechanism', 'request': p.variant, 'mech': 'bank', 'denom': K(D)})
+                # strict positivity of the amount moved
+                why = positive_evidence(p, a)
+                if why == 'undecided:net-proceeds': undecided[(p.variant, 'net proceeds = gross - ask fee (zero only when the ask fee equals the gross)')] += 1
+                else:
+                    eng.ob(why is not None, PROP, 'amount-positive', '%s:%s' % (p.variant, K(a)[:160]),
+                           '%s: %s of %s %s: nothing on the path establishes the amount is > 0 (a zero-coin message would be requested)' % (p.variant, 'bank send' if tr['mech'] == 'bank' else 'marker transfer', K(a)[:200], K(D)),
+                           where=call_site, detail=p.describe(16), sample={'rule': 'amount-positive', 'request': p.variant, 'amount': K(a)[:100], 'evidence': why})
                 # parties
                 if p.variant in ESCROW_IN:
                     ok = tr['mech'] == 'marker' and tr['to'] == SELF and tr['admin'] == SELF and tr['from'] == SENDER
@@ -133,8 +176,8 @@ def run(eng, tier):
         'explanation': 'Per successful abstract path and per emitted message (helpers inlined): the message is a one-coin BankMsg::Send or a MsgTransferRequest; a marker transfer of denomination D is emitted only where the path facts before the emission hold '
                        'IsOk(marker(D\')) & marker present & decodes & marker_type == 2 with D\' == D modulo the path equalities and I5; a bank send only where a fact contradicting that for D\' == D holds; parties: payouts from/administrator = contract, pull-ins to/administrator = contract and from = sender; '
                        'a marker transfer of amount 0 is refused before the message is built. Decided per path for every marker assignment (marker query outcomes are opaque symbols).',
-        'inventory': {'messages_checked': nmsg, 'emission_contexts': len(contexts), 'by_mechanism': dict(kinds)},
+        'inventory': {'messages_checked': nmsg, 'emission_contexts': len(contexts), 'by_mechanism': dict(kinds), 'positivity_undecided': {'%s: %s' % k: v for k, v in undecided.items()}},
         'trusted_base': ['MarkerQuerier / bank / marker module semantics', 'interpreter models (DESIGN §3)'],
-        'not_decided': ['strict positivity of unguarded bank-send amounts (value-dependent); guarded ones are covered by C02/C04'],
+        'not_decided': ['strict positivity of the net proceeds gross - ask fee when an ask fee is charged (zero exactly when the fee equals the gross, e.g. rate 1): value-dependent, listed in inventory.positivity_undecided; every other amount is shown positive by a guard fact, a validated size or a named invariant'],
         'assumptions': ['I5 (fee denom == quote denom of a stored bid) is established by C07/C15 obligations'],
     }
